@@ -1,0 +1,10 @@
+//go:build verif
+
+package batch
+
+// Contracts for the govc verifier (/verif). Comment-only file: it contains no
+// executable code and is compiled only with the build tag `verif`.
+
+// Batch authorization reads the policies, the entities and the request
+// template; it writes only memory it allocated itself (C19).
+//@ frameclean C19 Authorize
